@@ -693,6 +693,10 @@ def run(repo, outdir):
         # accepted reply - slot released, reply queued - as one step that a client's removal cannot fall into: it holds the slot's
         # lock, which removeclientrq needs, until the reply is queued)
         "replyhLocking": ("radsecproxy.c", "replyh", ["pthread_mutex_lock", "pthread_mutex_unlock", "sendreply", "freerqoutdata"]),
+        # C05/C16: the reader of an accepted TLS connection (not driven by the harness: its loop is replicated there): what it calls,
+        # in source order - a refused request is followed by the shutdown of the session IN BOTH DIRECTIONS (so that nothing the peer
+        # has already sent is read any more)
+        "tlsserverrdCalls": ("tlscommon.c", "tlsserverrd", ["radtlsget", "newrequest", "radsrv", "SSL_shutdown", "SSL_set_shutdown"]),
         # C14: which lookups attribute an accepted TLS / DTLS connection to a client block (every one of them takes the peer's address)
         "tlsAttribution": ("tls.c", "tlsservernew", ["find_clconf", "find_clconf_type", "find_all_clconf", "find_srvconf", "verifytlscert", "verifyconfcert", "addclient"]),
         "dtlsAttribution": ("dtls.c", "dtlsservernew", ["find_clconf", "find_clconf_type", "find_all_clconf", "find_srvconf", "verifytlscert", "verifyconfcert", "addclient"]),
